@@ -61,7 +61,7 @@ package cgroup
 // adding a pid writes exactly that pid's decimal text, one write per pid, to the group's cgroup.procs
 //@ func pkg/cgroup.AddProcesses props C20
 //@   arith int
-//@   assigns nothing
+//@   assigns FC.closed
 //@   loop 0: invariant -1 <= rangeindex && rangeindex < len(procs) && f != nil
 //@   callsite WriteString: assert @C20 s == itoa(procs[rangeindex + 1])
 
